@@ -144,8 +144,9 @@ func c09Program(r *verdict.Run, d *diffEnv, rng *rand.Rand, steps int) {
 			}
 		}
 		// after a divergence in a transaction-control command the two sides may disagree on the MULTI state: start over
-		if d.r.Violations() != before || (model.Class(got) != "status" && (name == "MULTI" || name == "DISCARD")) && false {
-			d.reconnect(0)
+		_ = before
+		if d.lastDiverged {
+			d.reconnect(conn)
 		}
 	}
 	// leave the transaction state clean and compare once more
